@@ -7,6 +7,7 @@ CONSTANTS
   MaxList = 1
   GenMode = FALSE
   Wide = FALSE
+  DEV_StoreBeforeValidate = FALSE
   DEV_SortedIdLists = FALSE
   DEV_SpellingInEq = TRUE
 INVARIANT LawRoundTripEqual
